@@ -10,7 +10,7 @@ From Coq Require Import List Arith Bool Lia.
 Import ListNotations.
 From TF Require Import Base.Hier Base.Ty Sub.Match Sub.SubSpec Sub.SubProofs.
 From TF Require Import Bag.Union Bag.Bag Bag.BagTy.
-From TF Require Import Query.Bgp Query.Gen Query.GenProofs Query.Spec Query.Assign Query.Check.
+From TF Require Import Query.Bgp Query.Gen Query.GenProofs Query.Spec Query.Assign Query.TaskSpec Query.Check.
 
 (* The decision procedure the harness runs on the model's conjuncts decides
    the declarative meaning: some assignment of graph terms to the variables
@@ -21,10 +21,12 @@ Print Assumptions C11_matchc_decides.
 
 (* assign_variables, with or without unfold_tree, on ANY task graph (tree or
    DAG; cyclic ones are rejected): the variables it leaves form an acyclic
-   skeleton in which every variable is an output or follows another one, and
-   every variable / link / output / input mark comes from the task graph. *)
+   skeleton in which every variable is an output or follows another one;
+   variables, links, output and input marks are exactly those of the step
+   nodes reachable from the outputs ([from_task]: sound and complete), one
+   variable per step node unless unfold_tree. *)
 Theorem C11_assign_dag : forall fuel T unfold sk, skeleton fuel T unfold = Ok sk ->
-  sk_dag sk /\ exists nodes, from_task T sk nodes.
+  sk_dag sk /\ exists nodes, from_task T unfold sk nodes.
 Proof. exact skeleton_dag. Qed.
 Print Assumptions C11_assign_dag.
 
@@ -68,6 +70,16 @@ Theorem C11_query_spec : forall H canon G fuel T unfold sw sk,
   (matches G (gen H sw sk) <-> assignable sw G sk).
 Proof. exact query_spec. Qed.
 Print Assumptions C11_query_spec.
+
+(* ... and the same on the task graph itself: the steps are the step nodes
+   reachable from the task's outputs ([task_assignable] does not mention the
+   generator's variables at all). *)
+Theorem C11_task_spec : forall H canon G fuel T sw sk,
+  wf_hier H -> graph_ok H canon G ->
+  skeleton fuel T false = Ok sk -> sk_canon H canon sk -> by_chronology sw = true ->
+  (matches G (gen H sw sk) <-> task_assignable sw G T).
+Proof. exact task_query_spec. Qed.
+Print Assumptions C11_task_spec.
 
 (* the same for every acyclic skeleton *)
 Theorem C11_gen_spec : forall H canon sw sk G, wf_hier H -> graph_ok H canon G -> sk_dag sk ->
